@@ -95,26 +95,116 @@ def rule_r5(facts, col, sites):
             col.ok("C06.R5", key, body.where(h), "a pass without Again/Pending leads to return and never to another pass")
 
 
-def _retired_vec(body, ws):
-    """Find the `retired` flag container: work() is dominated by the false edge of a switch on
-    *Index::index(&V, i). Returns (local V, switch bb, skip target)"""
+def _expr_root_local(e, depth=0, body=None):
+    """the container local an element expression is taken from: `*index(&V, i)`, or an item of `V.iter_mut()` (possibly
+    zipped with other iterators): follows ref/deref/field/downcast and the first argument of calls"""
+    n = 0
+    while e is not None and n < 40:
+        n += 1
+        if e.k in ("local", "multi"):
+            return e.local
+        if e.k in ("ref", "deref", "field", "downcast", "cast"):
+            e = e.a
+            continue
+        if e.k == "call":
+            nm = (e.q or "").split("::")[-1]
+            if nm == "zip" and e.args and len(e.args) == 2:
+                # the bool cell is the zip side whose item type is bool: try the second (most recent) then the first
+                for a in (e.args[1], e.args[0]):
+                    r = _expr_root_local(a, depth + 1, body) if depth < 6 else None
+                    if r is not None:
+                        return r
+                return None
+            if body is not None and nm in ("from_elem", "new", "with_capacity", "collect", "to_vec") and getattr(e, "bb", None) is not None:
+                t_ = body.term(e.bb)
+                if t_["k"] == "call" and t_.get("dst") is not None and not t_["dst"]["p"]:
+                    return t_["dst"]["l"]       # the vector built here (a single-assignment local shows as its constructor)
+            if e.args:
+                e = e.args[0]
+                continue
+        return None
+    return None
+
+
+def _bool_vec_local(body, l):
+    return l is not None and 0 <= l < len(body.locals) and ("Vec<bool>" in body.locals[l]["ty"] or "[bool" in body.locals[l]["ty"])
+
+
+def _flag_tests(body):
+    """[(switch bb, container local, true target, false target)] for bool switches on an element of a bool vector: either
+    `v[i]` or the item of an iterator over it (`for (b, done) in blocks.iter_mut().zip(v.iter_mut())`)"""
+    out = []
     for s in sorted(body.reachable(0)):
         t = body.term(s)
         if t["k"] != "switch" or t.get("dty") != "bool":
             continue
         e = switch_discr_expr(body, s)
+        neg = False
+        while e is not None and e.k == "un" and e.op == "Not":
+            neg = not neg
+            e = e.a
         x = e
         while x is not None and x.k in ("deref", "ref"):
             x = x.a
-        if x is None or x.k != "call" or x.q != INDEX:
+        if x is None:
+            continue
+        root = None
+        if x.k == "call" and x.q == INDEX:
+            root = _root_local(body, body.term(x.bb)["args"][0])
+        elif x.k in ("field", "downcast") or (x.k == "call" and (x.q or "").endswith("Iterator::next")):
+            # zipped candidates: pick a bool-vector root
+            cands = []
+            for y in walk(x):
+                if y.k == "call" and (y.q or "").split("::")[-1] in ("iter_mut", "iter") and y.args:
+                    r = _expr_root_local(y.args[0], 0, body)
+                    if _bool_vec_local(body, r):
+                        cands.append(r)
+            if len(set(cands)) == 1:
+                root = cands[0]
+        if root is None or not _bool_vec_local(body, root):
             continue
         bt = bool_edge_targets(body, s)
         if not bt:
             continue
-        if must_pass_edge(body, ws.wbb, (s, bt[1])):
-            v = peel(x.args[0])
-            vl = _root_local(body, body.term(x.bb)["args"][0])
-            return vl, s, bt[0]
+        out.append((s, root, bt[1] if neg else bt[0], bt[0] if neg else bt[1]))
+    return out
+
+
+def _flag_stores(body, vl):
+    """(blocks storing `true`, blocks storing something else) into an element of bool vector `vl` - through index_mut or
+    through an iterator item `*item = ..`"""
+    good, bad = set(), set()
+    handles = set()
+    for bb, t in body.calls_to(INDEX_MUT):
+        if _root_local(body, t["args"][0]) == vl:
+            handles.add(t["dst"]["l"])
+    for l, loc in enumerate(body.locals):
+        if loc["ty"].replace(" ", "") == "&mutbool" and l not in handles:
+            e = body.local_expr(l)
+            cands = []
+            for y in walk(e):
+                if y.k == "call" and (y.q or "").split("::")[-1] == "iter_mut" and y.args:
+                    r = _expr_root_local(y.args[0], 0, body)
+                    if _bool_vec_local(body, r):
+                        cands.append(r)
+            if cands and set(cands) == {vl}:
+                handles.add(l)
+    for b2 in range(body.n):
+        for st in body.blocks[b2]["stmts"]:
+            if st["k"] == "assign" and st["dst"]["l"] in handles and st["dst"]["p"] == ["*"]:
+                if is_const(body.rvalue_expr(st["rv"]), True):
+                    good.add(b2)
+                else:
+                    bad.add(b2)
+    return good, bad
+
+
+def _retired_vec(body, ws):
+    """Find the `retired` flag container: work() is dominated by the false edge of a switch on an element of a bool vector
+    (`v[i]`, or the item of an iterator over it). Returns (local V, switch bb, skip target)"""
+    for s, root, tr, fa in _flag_tests(body):
+        if must_pass_edge(body, ws.wbb, (s, fa)):
+            return root, s, tr
     return None, None, None
 
 
@@ -172,21 +262,8 @@ def rule_r2(facts, col, sites):
         elif init_ok is None:
             col.silent("C06.R2", base + ":init", body.where(sw), "initialisation of the retired flags not recognised")
         # stores into the retired vector
-        store_blocks = set()
-        bad_store = []
-        for bb, t in body.calls_to(INDEX_MUT):
-            if _root_local(body, t["args"][0]) != vl:
-                continue
-            dst = t["dst"]["l"]
-            # the store happens in the successor block(s): (*dst) = const
-            for b2 in range(body.n):
-                for s in body.blocks[b2]["stmts"]:
-                    if s["k"] == "assign" and s["dst"]["l"] == dst and s["dst"]["p"] == ["*"]:
-                        e = body.rvalue_expr(s["rv"])
-                        if is_const(e, True):
-                            store_blocks.add(b2)
-                        else:
-                            bad_store.append(b2)
+        store_blocks, bad_store = _flag_stores(body, vl)
+        bad_store = sorted(bad_store)
         for b2 in bad_store:
             col.bad("C06.R2", base + ":store", body.where(b2), "the retired flag is assigned something other than `true`", {})
         comp = scc_of(body, ws.wbb)
@@ -274,20 +351,7 @@ def rule_r3(facts, col, sites):
 
 def _skip_vectors(body, ws):
     """every bool-vector element test whose false edge must be passed to reach work(): [(vector local, switch bb)]"""
-    out = []
-    for s in sorted(body.reachable(0)):
-        t = body.term(s)
-        if t["k"] != "switch" or t.get("dty") != "bool":
-            continue
-        x = switch_discr_expr(body, s)
-        while x is not None and x.k in ("deref", "ref"):
-            x = x.a
-        if x is None or x.k != "call" or x.q != INDEX:
-            continue
-        bt = bool_edge_targets(body, s)
-        if bt and must_pass_edge(body, ws.wbb, (s, bt[1])):
-            out.append((_root_local(body, body.term(x.bb)["args"][0]), s))
-    return out
+    return [(root, s) for s, root, tr, fa in _flag_tests(body) if must_pass_edge(body, ws.wbb, (s, fa))]
 
 
 def rule_r6(facts, col, sites):
@@ -311,15 +375,7 @@ def rule_r6(facts, col, sites):
         reached, _ = flag_search(body, [ws.ret_switch], cut_edges=cut, avoid=avoid | {ws.wbb})
         for vl, sw in vecs:
             key = "%s:skip-flag(_%s)" % (body.q, body.var_name_of_local(vl) or vl)
-            stores = []
-            for bb, t in body.calls_to(INDEX_MUT):
-                if _root_local(body, t["args"][0]) != vl:
-                    continue
-                dst = t["dst"]["l"]
-                for b2 in range(body.n):
-                    for st in body.blocks[b2]["stmts"]:
-                        if st["k"] == "assign" and st["dst"]["l"] == dst and st["dst"]["p"] == ["*"] and is_const(body.rvalue_expr(st["rv"]), True):
-                            stores.append(b2)
+            stores = sorted(_flag_stores(body, vl)[0])
             early = [b2 for b2 in stores if b2 in reached]
             if early:
                 col.bad("C06.R6", key, body.where(early[0]),
